@@ -606,6 +606,17 @@ def run_case(case):
                 sample = dict(slow=params)
             for (kind, text) in problems:
                 violations.append(dict(key=classify(kind, text), what='[%s] %s' % (kind, text), detail=dict(params=params)))
+        # both SESS_TERM exchanged, something still pending, and then a peer that says nothing more (socket open): with an idle time
+        # configured the endpoint still closes in bounded time (the timer runs of C14 are reused; here the half-open outcome counts)
+        from vf.props import c14
+        obs14 = dict(runs=0, mute_peer_closures=0)
+        for role in ('passive', 'active'):
+            for pending in ('final-ack', 'half-transfer'):
+                for item in c14.run_silent_after_reply(role, 2, 0, pending, obs14):
+                    violations.append(dict(key=classify('half-open', item), what='[half-open] %s' % item, detail=dict(role=role, pending=pending)))
+                evaluations += 1
+                obs['runs'] += 1
+                classes.add('silent|%s|%s' % (role, pending))
     elif case['kind'] == 'cuts':
         scn = dict(BASES[case['base']], id=case['base'], seed=case['seed'])
         base_run, base_res = scen.execute(scn, max_steps=60000)
